@@ -63,6 +63,8 @@ func checkC01(c *Ctx) {
 	R.Assumptions = []string{"Go float64 arithmetic is IEEE-754 double", "math.Floor is floor"}
 	u := c.Core()
 	u.buildSSA()
+	// a literal denotes its documented value on every evaluation: literals are never served from a cache of mutable values
+	borrowRule(c, "C07", "C07.fresh", "C01.fresh")
 	// the value of a numeric literal (shared with C04): ParseFloat on every path
 	checkNum2Float(c, u, "C01.literal")
 	p := u.Pkgs["pkg/syntax/zh"]
